@@ -33,8 +33,11 @@ def main():
         import permuta
         if not os.path.abspath(permuta.__file__).startswith(os.path.abspath(REPO)):
             raise MachineryFailure("permuta imported from %s, expected under %s" % (permuta.__file__, REPO))
+        from harness import spoil
+        wrapped = spoil.install()           # results belong to the caller (harness/spoil.py)
         mod = importlib.import_module("harness.adapters." + pid.lower())
         ctx = Ctx(pid, a.tier, seed)
+        ctx.note("returned_containers_emptied_after_every_call", len(wrapped))
         ctx.scratch = scratch
         if a.replay:
             rc = mod.replay(ctx, a.replay)
